@@ -212,10 +212,12 @@ async fn fake_upstream(kind: &'static str) -> FakeUp {
                     }
                 };
                 rq.lock().unwrap().push(buf.clone());
+                // recorded before the reply leaves: the client can only learn of a grant after this instant
+                // (recording it afterwards raced with a fast proxy: the success reply was seen first)
+                ev.lock().unwrap().push((tport, Instant::now(), ok));
                 if !reply.is_empty() {
                     let _ = s.write_all(&reply).await;
                 }
-                ev.lock().unwrap().push((tport, Instant::now(), ok));
                 if close || !ok {
                     let _ = s.shutdown().await;
                     // drain
